@@ -730,6 +730,10 @@ func (c *ExecCtx) ctxDerive(st *State, fn *types.Func, args []Val, res []Val) {
 	if n == 1 {
 		c.u.eng.d.Fun("sf_ctxRoot", []string{SInt}, SInt)
 		st.assumeT(Eq(App("sf_ctxRoot", SInt, res[0].T), App("sf_ctxRoot", SInt, ctxArg)))
+		// ancestors of the result: those of the argument, and the argument
+		as := ArraySort(SInt, SBool)
+		c.u.eng.d.Fun("sf_ctxAnc", []string{SInt}, as)
+		st.assumeT(Eq(App("sf_ctxAnc", as, res[0].T), Store(App("sf_ctxAnc", as, ctxArg), ctxArg, True)))
 	}
 }
 
